@@ -269,14 +269,11 @@ def ackedBefore (c : CSt) (k : Nat) : Nat :=
 
 def isSyncSite (s : String) : Bool := s == "wal.sync.synced" || s == "wal.close.synced"
 
-/-- synced length of every log file after the events `evs` (NEWEST FIRST, as stored in `CSt.events`) -/
+/-- synced length of the log files after the events `evs` (NEWEST FIRST, as stored in `CSt.events`): the flushed lengths
+    recorded at the latest sync site. Files created since then are not listed (nothing of them is durable: length 0). -/
 def syncedOf : List Event → List Nat
   | [] => []
-  | ev :: rest =>
-    if isSyncSite ev.site then ev.flushed
-    else
-      let sv := syncedOf rest
-      sv ++ List.replicate (ev.flushed.length - sv.length) 0
+  | ev :: rest => if isSyncSite ev.site then ev.flushed else syncedOf rest
 
 /-- the events up to and including the k-th (1-based), newest first -/
 def eventsUpTo (c : CSt) (k : Nat) : List Event := (c.events.reverse.take k).reverse
@@ -284,9 +281,18 @@ def eventsUpTo (c : CSt) (k : Nat) : List Event := (c.events.reverse.take k).rev
 /-- synced lengths at the k-th site -/
 def syncedAt (c : CSt) (k : Nat) : List Nat := syncedOf (eventsUpTo c k)
 
-/-- what stable storage is guaranteed to hold of each log file when the power fails right at the k-th site -/
+/-- what stable storage is guaranteed to hold of each log file when the power fails right at the k-th site (files
+    created after the latest sync are empty / absent: `zip` stops at the shorter list, which replays the same) -/
 def diskSyncedAt (c : CSt) (k : Nat) : List Bytes :=
   (c.files.zip (syncedAt c k)).map (fun (f, n) => f.stream.take n)
+
+/-- synced lengths at the k-th site, one per log file existing at that site (0 for files created since the last sync) -/
+def syncedLens (c : CSt) (k : Nat) : List Nat :=
+  let sv := syncedAt c k
+  let n := match c.events.reverse[k - 1]? with
+    | some ev => ev.flushed.length
+    | none => sv.length
+  sv ++ List.replicate (n - sv.length) 0
 
 def recoveredPower (p : Wal.WalParams) (crc : Bytes → Nat) (c : CSt) (k : Nat) : List (Bytes × Bytes) × Nat :=
   let es := (Wal.replayDir p crc (diskSyncedAt c k)).entries
